@@ -208,6 +208,13 @@ def run_cfg(ctx, p, cfg):
                                 inner = strip(inner[2][0])
                             if inner[0] == "call" and len(inner) > 3 and inner[3] == blk_id and inner[1] == callee:
                                 return True
+                    # `result.unwrap_or_else(Piece::Error)`: the error text becomes the error piece - that is the rendering
+                    for u in f.calls():
+                        if (u.callee or "").rsplit("::", 1)[-1] == "unwrap_or_else" and "Result" in (u.callee or "") and len(u.args) == 2:
+                            a0 = strip(u.arg(0))
+                            a1 = deep_strip(u.arg(1))
+                            if a0[0] == "call" and len(a0) > 3 and a0[3] == blk_id and a0[1] == callee and ((a1[0] == "const" and a1[1] == "fn" and str(a1[2]).endswith("Piece::Error")) or (a1[0] == "fnref" and str(a1[1]).endswith("Piece::Error"))):
+                                return True
                     if depth < 3:
                         for u in f.calls():
                             if (u.callee or "").rsplit("::", 1)[-1] in ("and_then", "map", "map_err") and "Result" in (u.callee or "") and u.args:
